@@ -20,6 +20,7 @@ import (
 	"encoding/json"
 	"errors"
 	"fmt"
+	"hash/maphash"
 	"math/rand"
 	"net"
 	"os"
@@ -40,6 +41,7 @@ import (
 )
 
 type vC11GCaller struct {
+	key         int // which lookup key (flights mode: several keys share the capacity pools)
 	arrive, end int
 	kind        int // 1 own deadline, 2 client cancellation
 	cancel      context.CancelFunc
@@ -155,7 +157,11 @@ func TestVerifC11Regroup(t *testing.T) {
 			nc = 2 + r.Intn(11) // chains of up to 11 failed leaders
 		}
 		recoverAt := -1
-		tmpl := r.Intn(4)
+		nkeys, capSlots, zcap := 1, 0, 0 // capSlots == 0: no capacity pools (the single-key modes)
+		tmpl := r.Intn(5)
+		if tmpl == 4 && os.Getenv("VERIF_C11_FLIGHTS_OFF") != "" {
+			tmpl = 0
+		}
 		if c < len(corpus) {
 			tmpl = -1
 		}
@@ -167,6 +173,17 @@ func TestVerifC11Regroup(t *testing.T) {
 			}
 			recoverAt = corpus[c].RecoverAt
 			nc = len(callers)
+		case 4:
+			// several keys over small capacity pools: the global in-flight slots and the zone quota
+			mode = "regroup-flights"
+			nkeys, capSlots, zcap = 2+r.Intn(2), 1+r.Intn(3), 1+r.Intn(3)
+			for i := 0; i < nc; i++ {
+				a := pick(1, 3000)
+				callers = append(callers, &vC11GCaller{key: r.Intn(nkeys), arrive: a, end: pick(a+1, a+6000), kind: 1 + r.Intn(2)})
+			}
+			if r.Intn(2) == 0 {
+				recoverAt = pick(500, 9000)
+			}
 		case 0:
 			// free mix: arrivals and ends anywhere
 			mode = "regroup-mix"
@@ -227,11 +244,22 @@ func TestVerifC11Regroup(t *testing.T) {
 
 		wire.Store(0)
 		stuck := false
+		var series [][2]int
 		res := vC11GResolver() // built outside the bubble (its caches may own janitors); the channels inside
 		synctest.Test(t, func(t *testing.T) {
 			start := time.Now()
 			res.maxConcurrent = make(chan struct{}, 1)
 			res.maxConcurrent <- struct{}{} // stalled
+			if capSlots > 0 {
+				res.resolutionSlots = make(chan struct{}, capSlots)
+				res.zoneInflight = newZoneInflightLimiter(zcap)
+			}
+			sample := func() {
+				if capSlots > 0 {
+					zb := &res.zoneInflight.buckets[maphash.String(res.zoneInflight.seed, ".")%zoneInflightBuckets]
+					series = append(series, [2]int{len(res.resolutionSlots), int(zb.Load())})
+				}
+			}
 			servers := &authority.Servers{Zone: ".", List: []*authority.Server{authority.NewServer(addr, authority.IPv4)}}
 			base := new(dns.Msg)
 			base.SetQuestion(fmt.Sprintf("regroup%d.c11.example.", c), dns.TypeA)
@@ -246,6 +274,9 @@ func TestVerifC11Regroup(t *testing.T) {
 					ctx, cl.cancel = context.WithCancel(context.Background())
 				}
 				req := base.Copy()
+				if capSlots > 0 {
+					req.Question[0].Name = fmt.Sprintf("regroup%d-k%d.c11.example.", c, cl.key)
+				}
 				req.Id = uint16(100 + i)
 				wg.Add(1)
 				go func() {
@@ -271,6 +302,10 @@ func TestVerifC11Regroup(t *testing.T) {
 							cl.ekind = 3
 						}
 						switch {
+						case errors.Is(err, errZoneCapacity):
+							cl.class, cl.ekind = 5, 0
+						case errors.Is(err, middleware.ErrResolutionCapacity):
+							cl.class, cl.ekind = 4, 0
 						case own != nil && errors.Is(err, own):
 							cl.class = 1
 						case middleware.IsRequestLocalResolutionError(err):
@@ -297,6 +332,7 @@ func TestVerifC11Regroup(t *testing.T) {
 					<-res.maxConcurrent // the authority is reachable again
 				}
 				synctest.Wait()
+				sample()
 			}
 			time.Sleep(30 * time.Second)
 			synctest.Wait()
@@ -319,7 +355,7 @@ func TestVerifC11Regroup(t *testing.T) {
 			cc = append(cc, fmt.Sprintf("mk_gcaller %d %d %d", cl.arrive, cl.end, cl.kind))
 			oc = append(oc, fmt.Sprintf("mk_gobs %d %d %d", cl.ret, cl.class, cl.ekind))
 			desc = append(desc, map[string]any{"i": i, "arrives": cl.arrive, "own_context_ends": cl.end, "by": []string{"", "deadline", "cancel"}[cl.kind],
-				"returned_at": cl.ret, "class": []string{"answer", "own-context-error", "FOREIGN-request-local-error", "other-error", "", "", "", "", "", "still-running"}[cl.class], "error": cl.errs})
+				"returned_at": cl.ret, "key": cl.key, "class": []string{"answer", "own-context-error", "FOREIGN-request-local-error", "other-error", "capacity-refused", "zone-capacity-refused", "", "", "", "still-running"}[cl.class], "error": cl.errs})
 			if cl.class == 2 && goFail == "" {
 				goFail = fmt.Sprintf("caller %d (own context alive until %d ms) was failed at %d ms with another request's error: %s", i, cl.end, cl.ret, cl.errs)
 			}
@@ -349,13 +385,37 @@ func TestVerifC11Regroup(t *testing.T) {
 				ec = append(ec, fmt.Sprintf("GAt %d GRecover", ev.t))
 			}
 		}
+		coqCase := fmt.Sprintf("CaseRegroup [%s] [%s] [%s]", strings.Join(cc, "; "), strings.Join(ec, "; "), strings.Join(oc, "; "))
+		nontrivial := failedLeaders >= 3
+		if capSlots > 0 {
+			var ks, ss []string
+			refused := 0
+			for _, cl := range callers {
+				ks = append(ks, fmt.Sprintf("%d%%nat", cl.key))
+				if cl.class == 4 || cl.class == 5 {
+					refused++
+				}
+			}
+			for _, x := range series {
+				ss = append(ss, fmt.Sprintf("(%d%%nat, %d%%nat)", x[0], x[1]))
+				if (x[0] > capSlots || x[1] > zcap) && goFail == "" {
+					goFail = fmt.Sprintf("%d global / %d zone slots held with capacities %d / %d", x[0], x[1], capSlots, zcap)
+				}
+			}
+			if n := len(series); n > 0 && (series[n-1][0] != 0 || series[n-1][1] != 0) && goFail == "" {
+				goFail = fmt.Sprintf("after every caller returned %d global and %d zone slots are still held", series[n-1][0], series[n-1][1])
+			}
+			coqCase = fmt.Sprintf("CaseFlights [%s] %d %d %d [%s] [%s] [%s] [%s]", strings.Join(ks, "; "), nkeys, capSlots, zcap,
+				strings.Join(cc, "; "), strings.Join(ec, "; "), strings.Join(oc, "; "), strings.Join(ss, "; "))
+			nontrivial = refused >= 1
+		}
 		b, _ := json.Marshal(map[string]any{
 			"k":            mode,
-			"coq":          fmt.Sprintf("CaseRegroup [%s] [%s] [%s]", strings.Join(cc, "; "), strings.Join(ec, "; "), strings.Join(oc, "; ")),
-			"nontrivial":   failedLeaders >= 3,
+			"coq":          coqCase,
+			"nontrivial":   nontrivial,
 			"go_fail":      goFail,
 			"inconclusive": wireTrouble,
-			"desc":         map[string]any{"mode": mode, "callers": desc, "authority_recovers_at": recoverAt, "wire_queries": wire.Load()},
+			"desc":         map[string]any{"mode": mode, "callers": desc, "authority_recovers_at": recoverAt, "wire_queries": wire.Load(), "keys": nkeys, "global_slots": capSlots, "zone_quota": zcap, "slots_after_each_event": series},
 		})
 		f.Write(append(b, '\n'))
 	}
